@@ -190,8 +190,11 @@ def gen_target_op(rng, target, keys, big_n, bulk):
             op['n'] = rng.choice((1, 2))
         return op
     if target == 'index':
-        name = rng.choice(('setitem', 'getitem', 'delitem', 'ipop', 'setdefault', 'popitem', 'contains', 'len', 'items', 'iupdate', 'iclear'))
+        name = rng.choice(('setitem', 'getitem', 'delitem', 'ipop', 'setdefault', 'popitem', 'contains', 'len', 'items', 'iupdate', 'iclear',
+                           'eqdict', 'eqdict', 'keys'))      # comparisons and views: reads of the mapping interface
         op = {'op': name}
+        if name in ('eqdict', 'keys'):
+            return op
         if name == 'iupdate':
             op['items'] = [[rng.choice(keys), c05.uniq_value(rng, 1, b, big_n)] for b in range(rng.randint(1, 3))]
             return op
@@ -536,7 +539,7 @@ def judge(case, base, run, violations, probes):
         else:
             probes['timeout_raised'] = 1
         return
-    lockfree = name in LOCKFREE or name == 'has_key' or (name in ('get', 'getitem', 'read', 'get_many') and not _get_writes(cfg))
+    lockfree = name in LOCKFREE or name in ('has_key', 'eqdict', 'keys') or (name in ('get', 'getitem', 'read', 'get_many') and not _get_writes(cfg))
     if lockfree and long_hold and d.get('elapsed') is not None and d['elapsed'] >= 0.9 * cfg['dur'] and cfg['dur'] > 0:
         # a lookup that needs no write keeps working while somebody else holds the write lock: it does not wait for the release
         violations.append({'rule': 'C14/lock-free-lookup-waited', 'sig': '%s.%s' % (kind, name),
